@@ -50,7 +50,12 @@ ASSUMPTIONS = [
     "half-unit comparisons are exact decimal comparisons of the displayed digits with the exact binary value of the held float; "
     "a slack of 1e-12 relative to the held number is granted at exact ties (statement: either neighbour of a tie)",
     "for asymmetric strings each displayed uncertainty must be the true one rounded at a digit at or below its n-th significant "
-    "digit; 'the uncertainty's last displayed digit' is the finest last digit of the two; clause 3 applies when |value| >= the larger one",
+    "digit (never coarser); 'the uncertainty's last displayed digit' is that of the smaller of the two uncertainties (of the coarser "
+    "display if both are equal); clause 3 applies when |value| >= the larger one; uncertainties of exactly zero are outside the quantifier",
+    "genuine defects are classified by predicates over the witness (n_sig, displayed digit positions, exact-tie test, six displayed digits, "
+    "exception type + zero/None in the held state), never by seed or case hash; see key() in check_pm, double_rounding_key, compact_exception_key",
+    "if the held state changes between the snapshots taken before and after a display call (an inspection moved the fit: property C08), or "
+    "cannot be read at all, or is not finite, the observation is discarded and counted, not judged",
     "round_value_to_error=False is an explicit opt-out of clause 2/3: there the value is only required to be within half a unit of its own last digit",
     "in the textual report a number is required to be present only when the fit holds it (chi2 probability not None, errors valid)",
     "display names of parameters are left at their defaults, so displayed names must equal fit.parameter_names",
@@ -79,33 +84,33 @@ def floors(tier):
     q = tier == "quick"
     return {
         "comparisons": {
-            "string.error-rounded": 20000 if q else 1500000,
-            "string.value-within-half-unit": 20000 if q else 1500000,
-            "string.value-shown-to-error-digit": 8000 if q else 600000,
-            "string.fixed-marker": 30000 if q else 2000000,
-            "string.fixed-value": 2000 if q else 100000,
-            "string.asym-error-rounded": 10000 if q else 600000,
+            "string.error-rounded": 20000 if q else 500000,
+            "string.value-within-half-unit": 20000 if q else 600000,
+            "string.value-shown-to-error-digit": 8000 if q else 300000,
+            "string.fixed-marker": 30000 if q else 800000,
+            "string.fixed-value": 2000 if q else 60000,
+            "string.asym-error-rounded": 10000 if q else 500000,
             "cost-string.number": 3000 if q else 100000,
             "compact.value": 3000 if q else 100000,
             "compact.error": 2000 if q else 100000,
             "compact.correlation": 2000 if q else 100000,
             "compact.asym-error": 1000 if q else 50000,
-            "report.names": 60 if q else 3000,
-            "report.parameter-line": 120 if q else 6000,
-            "report.correlation": 100 if q else 5000,
-            "report.cost": 60 if q else 3000,
-            "report.ndf": 30 if q else 2000,
-            "report.cost-per-ndf": 30 if q else 2000,
-            "report.chi2-probability": 15 if q else 1000,
-            "preface.names": 30 if q else 2000,
-            "preface.value": 60 if q else 4000,
-            "preface.error": 40 if q else 3000,
-            "preface.correlation": 20 if q else 1500,
-            "preface.cost": 30 if q else 2000,
-            "preface.ndf": 30 if q else 2000,
-            "preface.cost-per-ndf": 30 if q else 2000,
-            "result-dict.exact": 400 if q else 20000,
-            "model-string.value": 60 if q else 3000,
+            "report.names": 60 if q else 2000,
+            "report.parameter-line": 90 if q else 3000,
+            "report.correlation": 100 if q else 3000,
+            "report.cost": 40 if q else 1500,
+            "report.ndf": 30 if q else 1000,
+            "report.cost-per-ndf": 30 if q else 1000,
+            "report.chi2-probability": 15 if q else 500,
+            "preface.names": 30 if q else 1000,
+            "preface.value": 60 if q else 2000,
+            "preface.error": 40 if q else 1500,
+            "preface.correlation": 20 if q else 700,
+            "preface.cost": 30 if q else 1000,
+            "preface.ndf": 30 if q else 1000,
+            "preface.cost-per-ndf": 30 if q else 1000,
+            "result-dict.exact": 400 if q else 10000,
+            "model-string.value": 60 if q else 1500,
         },
         "ops": ["fmt", "cost", "compact", "report-case", "do_fit", "observe", "report", "to_file", "get_result_dict", "set_values", "fix", "release", "new_data"],
         "reach": ["%s:%s" % a for a in ANCHORS],
@@ -113,7 +118,7 @@ def floors(tier):
         + ["mant|%s|%s" % (a, b) for a in MANT + ["zero"] for b in MANT]
         + ["fit|xy", "fit|indexed", "fit|hist", "model|python", "model|string", "report|asym", "report|sym", "report|fixed", "report|constraint", "report|limit", "report|unfitted", "report|scipy", "report|iminuit"],
         "sets": {"report-combos": 20 if q else 60},
-        "distinct_nontrivial": 40000 if q else 3000000,
+        "distinct_nontrivial": 40000 if q else 1000000,
     }
 
 
@@ -366,7 +371,7 @@ def gen_fmt_case(rng, idx, forced=None):
     else:
         eexp = None
     error, ec, eexp = gen_pos(rng, ecls, eexp)
-    case = {"kind": "fmt", "index": idx, "mode": mode, "n": n, "latex": latex, "value": value, "error": error, "asym": None, "with_name": None, "classes": [vc, ec]}
+    case = {"kind": "fmt", "mode": mode, "n": n, "latex": latex, "value": value, "error": error, "asym": None, "with_name": None, "classes": [vc, ec]}
     if rng.random() < 0.3:
         case["with_name"] = str(rng.choice(NAMES))
     if mode == "asym":
@@ -446,7 +451,7 @@ def gen_cost_case(rng, idx):
     if rng.random() < 0.03:
         value = 0.0
     ndf = None if rng.random() < 0.2 else int(rng.choice([0, 1, 2, 3, 7, 10, 33, 100, 12345]))
-    return {"kind": "cost", "index": idx, "value": value, "ndf": ndf, "with_name": bool(rng.random() < 0.5), "per_ndf": bool(rng.random() < 0.8), "latex": bool(rng.random() < 0.5)}
+    return {"kind": "cost", "value": value, "ndf": ndf, "with_name": bool(rng.random() < 0.5), "per_ndf": bool(rng.random() < 0.8), "latex": bool(rng.random() < 0.5)}
 
 
 def run_cost(ctx, case):
@@ -516,14 +521,14 @@ def gen_compact_case(rng, idx):
         v, _c, vexp = gen_pos(rng)
         if rng.random() < 0.4:
             v = -v
-        if rng.random() < 0.04:
+        if rng.random() < 0.02:
             v = 0.0
         if rng.random() < 0.6:
             eexp = int(np.clip(vexp + int(rng.integers(-5, 4)), -12, 11))
         else:
             eexp = None
         e, _c, eexp = gen_pos(rng, None, eexp)
-        fx = bool(rng.random() < 0.15)
+        fx = bool(rng.random() < 0.08)
         if fx:
             e = 0.0  # what a fit holds for a fixed parameter
         vals.append(v)
@@ -540,8 +545,9 @@ def gen_compact_case(rng, idx):
         if fixed[i]:
             for j in range(k):
                 cor[i][j] = cor[j][i] = 0.0
-    names = [NAMES[(idx + i) % len(NAMES)] for i in range(k)]
-    return {"kind": "compact", "index": idx, "names": names, "values": vals, "errors": errs, "cor": cor, "asym": asym if use_asym else None}
+    off = int(rng.integers(0, len(NAMES)))
+    names = [NAMES[(off + i) % len(NAMES)] for i in range(k)]
+    return {"kind": "compact", "names": names, "values": vals, "errors": errs, "cor": cor, "asym": asym if use_asym else None}
 
 
 def parse_compact(text, prefix="# "):
@@ -571,8 +577,8 @@ def check_compact_rows(ctx, pre, header, rows, names, values, errors, cor, asym,
     for i, r in enumerate(rows):
         fx = bool(np.isnan(errors[i]) or errors[i] == 0)
         ncol = 3 + (2 if has_asym else 0)
-        d = lambda: dict(det, row=r, parameter=names[i], held_value=values[i], held_error=errors[i], held_asym=None if asym is None else asym[i], held_cor_row=list(cor[i][:i]))  # noqa: E731
-        if not ctx.check(pre + ".row-shape", len(r) == ncol + i, d):
+        d = lambda: dict(det, row=r, parameter=names[i], held_value=values[i], held_error=errors[i], held_asym=None if asym is None else asym[i], held_cor_row=None if cor is None else list(cor[i][:i]))  # noqa: E731
+        if not ctx.check(pre + ".row-shape", len(r) == ncol + (i if cor is not None else 0), d):
             return False
         try:
             V = Num(r[1])
@@ -601,9 +607,11 @@ def check_compact_rows(ctx, pre, header, rows, names, values, errors, cor, asym,
 
 
 def double_rounding_key(disp, held):
-    """Classifier: the displayed number is not the rounding of the held one at its own last digit, but it is the
-    rounding (at that digit) of the held number first rounded at some finer digit."""
+    """Classifier: the displayed number has exactly six significant digits, is not the rounding of the held one at its own
+    last digit, but is the rounding (at that digit) of the held number first rounded at some finer digit."""
     h = D(held)
+    if len(disp.d.as_tuple().digits) != 6:  # the second rounding is tabulate's default '%g' (6 significant digits)
+        return None
     for p in range(disp.q - 1, disp.q - 13, -1):
         for r in round_at_set(h, p):
             if num_eq_any(disp.d, round_at_set(r, disp.q)) or disp.d == r.quantize(unit(disp.q), rounding=decimal.ROUND_HALF_UP, context=DC):
@@ -751,7 +759,6 @@ def gen_report_case(rng, idx, slot):
         mini = "iminuit"  # scipy profile scans of three free parameters take ~15 s
     case = {
         "kind": "report",
-        "index": idx,
         "model": model,
         "history": hist,
         "asym": bool(asym),
@@ -1032,6 +1039,9 @@ def check_preface(ctx, text, h, det):
         ctx.check("preface.parsed", False, lambda: dict(d(), exception=e))
         return False
     p = parse_compact("\n".join(lines))
+    if p is None and h["cor"] is None:
+        ctx.note("preface.no-table-while-no-correlation-matrix-held")  # nothing displayed, nothing to compare
+        return True
     if not ctx.check("preface.parsed", p is not None, lambda: dict(det, preface=lines)):
         return False
     return check_compact_rows(ctx, "preface", p[0], p[1], h["names"], h["values"], h["errors"], h["cor"], h["asym_if_calculated"], dict(det, preface=lines))
@@ -1203,6 +1213,36 @@ def observe(ctx, fit, case, tmpdir, step):
     return True
 
 
+def _mutate(ctx, fit, case, op, start):
+    """History operations between observations (none of them displays anything)."""
+    ftype, _spec, pnames, _true, _kind = MODELS[case["model"]]
+    ctx.op(op)
+    if op == "set_values":
+        p = pnames[0]
+        fit.set_parameter_values(**{p: float(fit.parameter_values[0]) * 1.2345 + 0.01 * abs(start[p])})
+    elif op == "fix":
+        if len(pnames) > 1:
+            p = case["fix"] or pnames[-1]
+            fit.fix_parameter(p, float(fit.parameter_name_value_dict[p]) * 1.01)
+    elif op == "release":
+        if len(pnames) > 1:
+            fit.release_parameter(case["fix"] or pnames[-1])
+    elif op == "new_data":
+        d = _make_data(case, 1)
+        if ftype == "xy":
+            fit.data = [d["x"], d["y"]]
+            fit.add_error("y", d["yerr"])
+        elif ftype == "indexed":
+            fit.data = d["y"]
+            fit.add_error(d["yerr"])
+        else:
+            from kafe2 import HistContainer
+
+            fit.data = HistContainer(d["bins"], d["range"], fill_data=d["raw"])
+    else:
+        raise ValueError("unknown history op %r" % op)
+
+
 def run_report(ctx, case):
     ftype, spec, pnames, true, kind = MODELS[case["model"]]
     ctx.op("report-case")
@@ -1228,43 +1268,22 @@ def run_report(ctx, case):
             step += 1
             if op == "do_fit":
                 ctx.op("do_fit")
-                with time_limit(90):
-                    fit.do_fit()
+                try:
+                    with time_limit(90):
+                        fit.do_fit()
+                except Exception as e:  # a failing minimisation is not a display problem
+                    raise _Abort("do_fit raised %s" % type(e).__name__)
             elif op == "observe":
                 if not fit.did_fit:
                     ctx.stratum("report", "unfitted")
                 if not observe(ctx, fit, case, tmpdir, step):
                     return False
                 fitted_obs += bool(fit.did_fit)
-            elif op == "set_values":
-                ctx.op("set_values")
-                p = pnames[0]
-                fit.set_parameter_values(**{p: float(fit.parameter_values[0]) * 1.2345 + 0.01 * abs(start[p])})
-            elif op == "fix":
-                ctx.op("fix")
-                p = case["fix"] or pnames[-1]
-                if len(pnames) == 1:
-                    continue
-                fit.fix_parameter(p, float(fit.parameter_name_value_dict[p]) * 1.01)
-            elif op == "release":
-                ctx.op("release")
-                p = case["fix"] or pnames[-1]
-                if len(pnames) == 1:
-                    continue
-                fit.release_parameter(p)
-            elif op == "new_data":
-                ctx.op("new_data")
-                d = _make_data(case, 1)
-                if ftype == "xy":
-                    fit.data = [d["x"], d["y"]]
-                    fit.add_error("y", d["yerr"])
-                elif ftype == "indexed":
-                    fit.data = d["y"]
-                    fit.add_error(d["yerr"])
-                else:
-                    from kafe2 import HistContainer
-
-                    fit.data = HistContainer(d["bins"], d["range"], fill_data=d["raw"])
+            else:
+                try:
+                    _mutate(ctx, fit, case, op, start)
+                except Exception as e:  # a failing set-up operation is not a display problem
+                    raise _Abort("%s raised %s" % (op, type(e).__name__))
         complete = fitted_obs > 0
     except OpTimeout:
         ctx.discard("report-case-timeout")
